@@ -48,6 +48,11 @@ representation `value` and exponent `exp` denotes `value · 2^exp`.
   undefined.  `scaled_add_exact` … `scaled_mod_exact` spell the five cases out.
 * `scaled_neg_exact`, `scaled_cmp_by_value`, `scaled_cmp_denoted` — unary minus; the six comparisons
   compare the denoted values `value · 2^exp` for every signedness mix.
+
+A `cnl::constant<V>` operand meeting an elastic_scaled_integer (`ElasticScaled.constOperand`, `constBin`: the
+constant becomes `scaled_integer<set_digits_t<int, max(31, significand digits)>, power<trailing_bits V>>`, then
+`scaled_binOp_exact` applies to the pair) is covered by correspondence only (`sconst` lines, exact-value oracle
+`result · 2^e = x · 2^E op V`); no theorem about the deduction of the constant's type.
 -/
 namespace Cnl.C05
 open Cnl Cnl.Elastic Cnl.Spec
